@@ -558,3 +558,158 @@ def impl_sc_e2e(case):
         res['left_polls'] = sum(1 for c in checks if getattr(c, '_poll_task', None) is not None)
         rig.close()
         return res
+
+
+# ---- watchers of ServiceCheck-backed services joining and leaving at any loop iteration ----------------------
+
+class TimedFn:
+    """check function whose result depends on the time it returns: phases [(t_from, r)], r in T F N B R;
+    each run takes `dur` ticks (-1: no suspension)"""
+
+    def __init__(self, loop, phases, dur):
+        self.loop, self.phases, self.dur = loop, [tuple(p) for p in phases], dur
+        self.log = []
+        self.active = 0
+        self.max_active = 0
+
+    def result_at(self, t):
+        r = self.phases[0][1]
+        for t0, x in self.phases:
+            if t0 <= t:
+                r = x
+        return r
+
+    async def __call__(self):
+        rec = [round(self.loop.time() / TICK), None, None]
+        self.log.append(rec)
+        self.active += 1
+        self.max_active = max(self.max_active, self.active)
+        try:
+            if self.dur >= 0:
+                await asyncio.sleep(self.dur * TICK)
+            r = self.result_at(round(self.loop.time() / TICK))
+            rec[2] = r
+            if r == 'R':
+                raise RuntimeError('scripted failure')
+            return {'T': True, 'F': False, 'N': None, 'B': 1}[r]
+        except asyncio.CancelledError:
+            rec[2] = 'cancelled'
+            raise
+        finally:
+            self.active -= 1
+            rec[1] = round(self.loop.time() / TICK)
+
+
+class _Capture(logging.Handler):
+    def __init__(self):
+        super().__init__(level=logging.ERROR)
+        self.records = []
+
+    def emit(self, record):
+        self.records.append((record.name, record.getMessage()[:80],
+                             type(record.exc_info[1]).__name__ if record.exc_info and record.exc_info[1] else None))
+
+
+def live_pollers(loop, check):
+    n = 0
+    for t in asyncio.all_tasks(loop):
+        co = t.get_coro()
+        if not t.done() and getattr(co, '__qualname__', '') == 'ServiceCheck._poll':
+            fr = getattr(co, 'cr_frame', None)
+            if fr is not None and fr.f_locals.get('self') is check:
+                n += 1
+    return n
+
+
+def impl_churn(case):
+    """cmds: j:<name> (a Watch call is created) | l:<k> (watcher k is cancelled) | i:<n> (n loop iterations) |
+    q (run until idle) | t:<dt> (time passes).  rig 'direct': real Health.Watch on a fake stream; 'e2e': real
+    client stub.  Afterwards `tail` ticks pass without any change, the live watchers are inspected, then
+    everybody leaves."""
+    from grpclib.health.check import ServiceCheck, ServiceStatus
+    cap = _Capture()
+    srv_log = logging.getLogger('grpclib.server')
+    srv_log.addHandler(cap)
+    old_prop = srv_log.propagate
+    srv_log.propagate = False
+    try:
+        with vloop.session() as loop:
+            checks, fns = [], []
+            for spec in case['checks']:
+                if 'status' in spec:
+                    c = ServiceStatus()
+                    c._value = ST[spec['status']]
+                    checks.append(c)
+                    fns.append(None)
+                else:
+                    fn = TimedFn(loop, spec['phases'], spec['dur'])
+                    checks.append(ServiceCheck(fn, check_ttl=spec['ttl'] * TICK, check_timeout=spec['tmo'] * TICK))
+                    fns.append(fn)
+            health = make_health(case['cfg'], checks)
+            e2e = case.get('rig') == 'e2e'
+            rig = E2E(loop, health) if e2e else None
+            ws = []           # direct: (task, FakeStream); e2e: out dict
+            left = set()
+            snaps = []
+
+            def snap():
+                snaps.append([None if f is None else
+                              (len(c._events), int(c._poll_task is not None), live_pollers(loop, c))
+                              for c, f in zip(checks, fns)])
+            for cmd in case['cmds']:
+                p = cmd.split(':')
+                if p[0] == 'j':
+                    if e2e:
+                        ws.append(rig.watch(svc_name(int(p[1]))))
+                    else:
+                        fs = FakeStream(loop, svc_name(int(p[1])), False)
+                        ws.append({'task': loop.create_task(health.Watch(fs)), 'fs': fs})
+                elif p[0] == 'l':
+                    k = int(p[1])
+                    if k < len(ws):
+                        ws[k]['task'].cancel()
+                        left.add(k)
+                elif p[0] == 'i':
+                    for _ in range(int(p[1])):
+                        one_iter(loop)
+                elif p[0] == 'q':
+                    run_quiet(loop, 0.0)
+                    snap()
+                elif p[0] == 't':
+                    run_until(loop, loop.time() + int(p[1]) * TICK)
+                    snap()
+            run_until(loop, loop.time() + case['tail'] * TICK)
+            snap()
+
+            def got(w):
+                return [s for s, _ in w['got']] if e2e else list(w['fs'].sent)
+            out = {
+                'snaps': snaps,
+                'sent': [got(w) for w in ws],
+                'left': sorted(left),
+                'state_live': [('pending' if not w['task'].done() else vloop.outcome(w['task'])[0]) for w in ws],
+                'logs': [None if f is None else [tuple(r) for r in f.log] for f in fns],
+                'max_active': [None if f is None else f.max_active for f in fns],
+                'now': round(loop.time() / TICK),
+            }
+            for w in ws:
+                w['task'].cancel()
+            run_quiet(loop, 2.0)
+            if e2e:
+                run_until(loop, loop.time() + 16 * TICK)
+            ends = []
+            for w in ws:
+                o = vloop.outcome(w['task'])
+                ends.append(o[0] if o[0] != 'exc' else 'exc:' + type(o[1]).__name__)
+            out['ends'] = ends
+            out['left_events'] = sum(len(c._events) for c in checks)
+            out['left_polls'] = sum(1 for c, f in zip(checks, fns) if f is not None and
+                                    (c._poll_task is not None or live_pollers(loop, c)))
+            out['server_errors'] = [r for r in cap.records]
+            out['unhandled'] = [str(u.get('message'))[:80] for u in loop.unhandled]
+            if rig is not None:
+                rig.close()
+            return out
+    finally:
+        srv_log.removeHandler(cap)
+        srv_log.propagate = old_prop
